@@ -7,6 +7,8 @@ from ..probe import call
 from ..ref import isa
 
 LEVEL = "exploration"
+TECHNIQUE = 'runtime monitoring: analytic ISA / haversine reference, round-trip, ordering and monotonicity trace monitors, scalar-vs-array relation'
+LEVEL_TEXT = 'Exploration on grids plus random points; tolerances stated per relation.'
 LEVEL_RULE = (
     "pyModeS.extra.aero functions called with scalar and ndarray arguments on a (speed, altitude) grid over [0.5,450] m/s x "
     "[-500,20000] m plus random points, Mach in (0,1.3]; oracles: analytic ISA within 0.1 % and continuity at 11 km, round "
